@@ -150,8 +150,7 @@ func (c *SymbolNode) Ancestry() []rune {
 			// Copy the parent's text: appending to its slice would share one backing
 			// array between sibling nodes.
 			c.ancestry = append([]rune{}, c.parent.Ancestry()...)
-		}
-		if c.character != 0 {
+			// Every node but the root stands for one character of the symbol, U+0000 included.
 			c.ancestry = append(c.ancestry, c.character)
 		}
 	}
